@@ -87,6 +87,13 @@ def build():
     u_generate.config_types(u)
     u.real_item(CTX, r"pub struct Cache\b", common.de_serde)
     u.include("shims/driver_stubs_core.rs")
+    from . import u_find
+    _tmpp = Unit("tmpp")
+    _fr = u_find.find_references(_tmpp)
+    u.raw("verus! {\n")
+    u.stub_of(_fr, note="find_references: positions contract proved in unit `find`; purity and size bound assumed",
+              extra_ensures=["r@ == found(code.spec_bytes(), *config)", "r@.len() <= u32::MAX"])
+    u.raw("}\n")
     u.include("shims/walk.rs")
     from . import u_finder
     _tmpf = Unit("tmpf")
